@@ -446,6 +446,23 @@ def o_copies(spec, tr):
                 out.append("copies of %r differ: id %s/%s props %r/%r events %r/%r" % (name, base["id"], r["id"], base["props"], r["props"], base["events"], r["events"]))
             if abs(r["dur"] - base["dur"]) > 2000:
                 out.append("copies of %r have durations %d and %d" % (name, base["dur"], r["dur"]))
+    # a copy may lack attachments when it arrives after its trace's root (C06 leaves that open), but no copy ever carries an
+    # event or property more often than it was attached: the nested events of one copy are not mounted on another
+    exp = {}
+    for e in spec.expected:
+        exp.setdefault((e["name"], e["trace"]), []).append(e)
+    for pos, r in tr.delivered():
+        es = exp.get((r["name"], r["trace"]))
+        if not es or r["name"] not in spec.unspecified:
+            continue            # (records that are fully specified are judged by the attachments oracle)
+        for what, key in (("events", lambda x: [(n, tuple(map(tuple, p))) for n, p in x["events"]]), ("props", lambda x: [tuple(p) for p in x["props"]])):
+            got = key(r)
+            for item in set(got):
+                most = max(key(e).count(item) for e in es)
+                if got.count(item) > most:
+                    out.append("copy of %r in trace %x carries %s %r %d times; it was attached %d times (attachments of another copy were mounted on this one)"
+                               % (r["name"], r["trace"], what[:-1], item[0] if what == "events" else item, got.count(item), most))
+                    break
     return out
 
 
@@ -511,7 +528,9 @@ def o_times(spec, tr, times):
         for r in rs:
             p = byid.get(r["parent"])
             es = names.get((r["name"], r["trace"]))
-            if p is None or not es or es[0]["kind"] == "span":
+            # (a record named `cl` that the specification does not know is the local span entered by a user closure or
+            # by a span-name conversion: a local span like any other)
+            if p is None or (es and es[0]["kind"] == "span") or (not es and r["name"] != "cl"):
                 continue
             pes = names.get((p["name"], p["trace"]))
             if not pes or pes[0]["kind"] == "span":
